@@ -8,8 +8,10 @@
 (*    written"                                                                 *)
 (*                                                                             *)
 (* State: cap (-1: not constructed yet), content = the bytes accepted so far,  *)
-(* in order (the cursor is Len(content)).  A size n < 0 stands for the size_t  *)
-(* value 2^64 + n (TLC integers are 32 bit).  Write(n, b) writes n bytes of    *)
+(* in order (the cursor is Len(content)).  A size n < 0 stands for a size_t    *)
+(* value of 2^31 or more (TLC integers are 32 bit): 2^64 + n for n > -2^30,    *)
+(* and 2^31, 2^31+1, 2^32-1, 2^32, 2^32+1, 2^63 for n = -2^30 - 0 .. 5.        *)
+(* (such a size never fits).  Write(n, b) writes n bytes of    *)
 (* value b; Reserve(n, b) reserves n bytes which the caller then fills with b  *)
 (* through the returned pointer.                                               *)
 EXTENDS Integers, Sequences, TLC
@@ -21,10 +23,13 @@ HugeSizes == {-1}    \* size_t(-1): in the bounded instances reservations only (
 VARIABLES cap, content, last
 vars == <<cap, content, last>>
 
+\* the decision in terms of the number of bytes used (FixedWriterBig works with lengths only)
+FitsN(c, used, n) == n >= 0 /\ n <= c - used
+ClsN(c, used, n) == IF n < 0 THEN "huge" ELSE IF n < c - used THEN "fits" ELSE IF n = c - used THEN "exact-fit"
+                    ELSE IF n = c - used + 1 THEN "one-over" ELSE "over"
 Avail(c, ct) == c - Len(ct)
-Fits(c, ct, n) == n >= 0 /\ n <= Avail(c, ct)
-Cls(c, ct, n) == IF n < 0 THEN "huge" ELSE IF n < Avail(c, ct) THEN "fits" ELSE IF n = Avail(c, ct) THEN "exact-fit"
-                 ELSE IF n = Avail(c, ct) + 1 THEN "one-over" ELSE "over"
+Fits(c, ct, n) == FitsN(c, Len(ct), n)
+Cls(c, ct, n) == ClsN(c, Len(ct), n)
 Block(n, b) == [i \in 1..n |-> b]
 Obs(c, ct) == [available |-> Avail(c, ct), capacity |-> c, written |-> ct]
 
